@@ -97,6 +97,8 @@ def run(run, args):
     run.oblige("specification holds on every implementation outcome of the extracted sweep", not xholds, "%d fail" % len(xholds))
     run.oblige("correspondence on the extracted sweep", not xtie, "%d differ" % len(xtie))
     broken = standard_proof_obligations(run, "C16", THEOREMS) if THEOREMS else []
+    broken += source_corollaries(run, "C16s", ["C16s_parse_total", "C16s_parse_with_sound", "C16s_parse_sound", "C16s_roundtrip", "C16s_parse_sound_built", "C16s_table_roundtrip"],
+                                 ("espec",))
     if xholds:
         violation(run, {"failing_input": xholds[0], "composition": comp, "found_by": "extracted exhaustive sweep",
                         "what": "a parse panicked or accepted text that is not `symbol` / `symbol[isotope the element has]`, or a string-keyed read "
